@@ -540,3 +540,163 @@ func c07r3(rc *core.RC) {
 		rc.Unknown("decoder/moves", token.NoPos, "found %d typedmemmove/stride sites", n)
 	}
 }
+
+// ---- C07.R5 a slice header's capacity is the element count its array was allocated with ----
+
+func c07r5(rc *core.RC) {
+	p := rc.P
+	n := 0
+	for _, fd := range p.Funcs("decoder") {
+		if fd.Body == nil {
+			continue
+		}
+		info := p.Info(fd)
+		fn := p.FuncName(fd)
+		le := &core.LinearEval{Info: info}
+		same := func(a, b ast.Expr) bool {
+			la, lb := le.Eval(a), le.Eval(b)
+			if la.OK && lb.OK {
+				return la.Equal(lb)
+			}
+			return types.ExprString(a) == types.ExprString(b)
+		}
+		capOf := func(cl *ast.CompositeLit) ast.Expr {
+			for _, el := range cl.Elts {
+				if kv, ok := el.(*ast.KeyValueExpr); ok {
+					if id, ok := kv.Key.(*ast.Ident); ok && id.Name == "cap" {
+						return kv.Value
+					}
+				}
+			}
+			return nil
+		}
+		dataOf := func(cl *ast.CompositeLit) ast.Expr {
+			for _, el := range cl.Elts {
+				if kv, ok := el.(*ast.KeyValueExpr); ok {
+					if id, ok := kv.Key.(*ast.Ident); ok && id.Name == "data" {
+						return kv.Value
+					}
+				}
+			}
+			return nil
+		}
+		seq := 0
+		ast.Inspect(fd.Body, func(m ast.Node) bool {
+			call, ok := m.(*ast.CallExpr)
+			if !ok || core.CalleeName(info, call) != "decoder.newArray" || len(call.Args) != 2 {
+				return true
+			}
+			n++
+			seq++
+			rc.Touch(fn)
+			count := call.Args[1]
+			key := fmt.Sprintf("%s/newArray#%d(%s)", fn, seq, types.ExprString(count))
+			path := core.PathTo(fd.Body, call)
+			if len(path) < 2 {
+				rc.Unknown(key, call.Pos(), "context of the allocation not recognised")
+				return true
+			}
+			parent := path[len(path)-2]
+			switch par := parent.(type) {
+			case *ast.KeyValueExpr:
+				if len(path) >= 3 {
+					if cl, ok := path[len(path)-3].(*ast.CompositeLit); ok {
+						c := capOf(cl)
+						if c == nil {
+							rc.Bad(key, call.Pos(), "the header built around this array has no cap field")
+						} else {
+							rc.Check(same(c, count), key, call.Pos(), "header cap `%s` equals the allocated element count `%s`", types.ExprString(c), types.ExprString(count))
+						}
+						return true
+					}
+				}
+				rc.Unknown(key, call.Pos(), "key-value context not recognised")
+			case *ast.AssignStmt:
+				if len(par.Lhs) != 1 {
+					rc.Unknown(key, call.Pos(), "multi-assignment")
+					return true
+				}
+				// the statement list that holds the assignment
+				var list []ast.Stmt
+				for i := len(path) - 3; i >= 0; i-- {
+					switch b := path[i].(type) {
+					case *ast.BlockStmt:
+						list = b.List
+					case *ast.CaseClause:
+						list = b.Body
+					}
+					if list != nil {
+						break
+					}
+				}
+				at := -1
+				for i, st := range list {
+					if st == ast.Stmt(par) {
+						at = i
+					}
+				}
+				if sel, ok := core.Unparen(par.Lhs[0]).(*ast.SelectorExpr); ok && sel.Sel.Name == "data" {
+					if v, ok := core.ConstInt(info, count); ok && v == 0 {
+						rc.OK(key, call.Pos(), "an empty array: no element can be addressed through it")
+						return true
+					}
+					hdr := types.ExprString(sel.X)
+					found := false
+					for _, st := range list {
+						as, ok := st.(*ast.AssignStmt)
+						if !ok || len(as.Lhs) != 1 || len(as.Rhs) != 1 {
+							continue
+						}
+						if s2, ok := core.Unparen(as.Lhs[0]).(*ast.SelectorExpr); ok && s2.Sel.Name == "cap" && types.ExprString(s2.X) == hdr {
+							found = true
+							rc.Check(same(as.Rhs[0], count), key, call.Pos(), "`%s.cap = %s` next to the allocation of %s elements", hdr, types.ExprString(as.Rhs[0]), types.ExprString(count))
+						}
+					}
+					if !found {
+						rc.Bad(key, call.Pos(), "%s.data receives a new array of %s elements but %s.cap is not set beside it", hdr, types.ExprString(count), hdr)
+					}
+					return true
+				}
+				v := core.ObjOf(info, par.Lhs[0])
+				if v == nil || at < 0 {
+					rc.Unknown(key, call.Pos(), "assignment target not recognised")
+					return true
+				}
+				// the next header built from v in the same statement list
+				var hit *ast.CompositeLit
+				for _, st := range list[at+1:] {
+					if hit != nil {
+						break
+					}
+					ast.Inspect(st, func(k ast.Node) bool {
+						if cl, ok := k.(*ast.CompositeLit); ok && hit == nil {
+							if d := dataOf(cl); d != nil && core.ObjOf(info, d) == v {
+								hit = cl
+							}
+						}
+						return true
+					})
+				}
+				if hit == nil {
+					rc.Unknown(key, call.Pos(), "no slice header is built from %s after the allocation in the same block", v.Name())
+					return true
+				}
+				c := capOf(hit)
+				rc.Check(c != nil && same(c, count), key, call.Pos(), "the header built from %s has cap `%s`; allocated element count `%s`", v.Name(), exprOrNone(c), types.ExprString(count))
+			default:
+				rc.Unknown(key, call.Pos(), "context of the allocation not recognised (%T)", parent)
+			}
+			return true
+		})
+	}
+	if n < 8 {
+		rc.Unknown("decoder/newArray-sites", token.NoPos, "found %d newArray calls", n)
+	}
+}
+
+func exprOrNone(e ast.Expr) string {
+	if e == nil {
+		return "<none>"
+	}
+	return types.ExprString(e)
+}
